@@ -192,10 +192,17 @@ class BodyMixin:
         forms = env['ombott.request.forms'] = self._forms_factory()
 
         body = self.body
+        try:
+            self._read_multipart(body, post, forms, files)
+        except RequestError as err:
+            # malformed or oversized form data is the client's fault: answer as configured (400 / 413)
+            self._raise(err, RequestError)
+        return post
+
+    def _read_multipart(self, body, post, forms, files):
         markup: MultipartMarkup = body.ombott_markup
         if markup is None:
-            # should never happen since we check content-type
-            # when reading body
+            # multipart content type without a usable boundary parameter
             raise BodyParsingError()
         elif markup.error is not None:
             raise markup.error
@@ -223,7 +230,6 @@ class BodyMixin:
                     el.append(it)
                 else:
                     dst[key] = it
-        return post
 
     @cache_in('environ[ ombott.request.forms ]', read_only=True)
     def forms(self):
@@ -248,10 +254,10 @@ class BodyMixin:
     def _body(self):
         markup = None
         mp = MULTIPART_BOUNDARY_PATT.match(self.environ.get('CONTENT_TYPE', ''))
-        if mp is not None:
-            # the boundary parameter may be a quoted string (RFC 2046 requires it for some characters)
-            markup = MultipartMarkup(mp.group(1).strip('"'))
         try:
+            if mp is not None:
+                # the boundary parameter may be a quoted string (RFC 2046 requires it for some characters)
+                markup = MultipartMarkup(mp.group(1).strip('"'))
             body = _body_read(
                 self.environ['wsgi.input'].read,
                 self.config.max_memfile_size,
